@@ -18,10 +18,13 @@ tvars == <<l, st, hashOf, nextId, idOf, set, byhash, keyOf>>
 TInit == /\ l = 2 /\ st = [t |-> EmptyTable(1), c |-> 1, len |-> 0] /\ hashOf = << >> /\ nextId = 1
         /\ idOf = << >> /\ set = SetEmpty /\ byhash = FALSE /\ keyOf = << >>
 
+(* 64-bit hashes are logged as <<hi, lo>> (hi * 2^32 + lo); the model works on hi * 1024 + lo, which has *)
+(* the same residue modulo every capacity that divides 1024 (wide hashes are only used with such tables)  *)
+HV(h) == h[1] * 1024 + h[2]
 Observed(slots, ko) ==
   [i \in 0 .. (Len(slots) - 1) |->
      IF slots[i + 1][1] = 1
-     THEN [occ |-> TRUE, key |-> ko[slots[i + 1][4]], hash |-> slots[i + 1][2], psl |-> slots[i + 1][3], id |-> slots[i + 1][4]]
+     THEN [occ |-> TRUE, key |-> ko[slots[i + 1][4]], hash |-> slots[i + 1][5] * 1024 + slots[i + 1][2], psl |-> slots[i + 1][3], id |-> slots[i + 1][4]]
      ELSE Empty]
 
 TStep ==
@@ -34,9 +37,9 @@ TStep ==
                /\ st' = [t |-> EmptyTable(e.cap), c |-> e.cap, len |-> 0]
                /\ set' = SetEmpty /\ byhash' = e.byhash /\ keyOf' = << >>
           [] e.ev = "goi" ->
-               LET kk == IF byhash THEN e.h ELSE e.k
+               LET kk == IF byhash THEN HV(e.h) ELSE e.k
                    ko == IF e.ret \in DOMAIN keyOf THEN keyOf ELSE keyOf @@ (e.ret :> e.k)
-                   pred == GetOrInsertStep(FALSE, st, byhash, e.h, e.k, e.ret)
+                   pred == GetOrInsertStep(FALSE, st, byhash, HV(e.h), e.k, e.ret)
                    obs == Observed(e.slots, ko)
                IN /\ SetGetOrInsertOK(set, kk, e.ret)                              \* L1
                   /\ set' = SetAfterGetOrInsert(set, kk, e.ret)
@@ -45,10 +48,10 @@ TStep ==
                             len |-> Cardinality({i \in DOMAIN obs : obs[i].occ})]
                   /\ keyOf' = ko /\ UNCHANGED byhash
           [] e.ev = "gbh" ->
-               /\ IF byhash THEN SetLookupOK(set, e.h, e.ret)                     \* L1 (by-hash tables only)
+               /\ IF byhash THEN SetLookupOK(set, HV(e.h), e.ret)                     \* L1 (by-hash tables only)
                   ELSE (IF e.ret # 0 THEN e.ret \in set.handed ELSE TRUE)
                /\ UNCHANGED set
-               /\ IF GetByHash(st, e.h) # e.ret THEN PrintT(<<"DRIFT", l>>) ELSE TRUE
+               /\ IF GetByHash(st, HV(e.h)) # e.ret THEN PrintT(<<"DRIFT", l>>) ELSE TRUE
                /\ UNCHANGED <<st, byhash, keyOf>>
 
 TSpec == TInit /\ [][TStep]_tvars
